@@ -100,3 +100,28 @@ package extension
 //@   ensures forall k string :: k != AnnotationExtendedResourceSpec ==> has(pod.ObjectMeta.Annotations, k) == old(has(pod.ObjectMeta.Annotations, k)) && pod.ObjectMeta.Annotations[k] == old(pod.ObjectMeta.Annotations[k])
 //@   modifies pod.ObjectMeta.Annotations, contents(pod.ObjectMeta.Annotations)
 //@   option trusted
+
+// ---------- [C15] elastic-quota annotation decoders (elastic_quota.go) ----------
+// The JSON decoding itself is environment (encoding/json, assumed: writes only the object passed by pointer).
+// Each decoder touches no other state (the decoded list itself is arbitrary: any JSON text may be stored in the annotation).
+//@ func GetAllocated [C15]
+//@   requires quota != nil
+//@   modifies nothing
+
+//@ func GetGuaranteed [C15]
+//@   requires quota != nil
+//@   modifies nothing
+
+// ---------- [C11] node-pressure eviction: opt-in label and eviction-priority annotation (evict.go) ----------
+//@ spec func evictEnabled(pod *corev1.Pod) bool = pod != nil && pod.ObjectMeta.Labels != nil && has(pod.ObjectMeta.Labels, LabelPodEvictEnabled) && pod.ObjectMeta.Labels[LabelPodEvictEnabled] == "true"
+
+// Eviction is enabled for a pod exactly when it carries the label koordinator.sh/eviction-enabled = "true".
+//@ func PodEvictEnabled [C11]
+//@   ensures #iff: result <==> evictEnabled(pod)
+//@   modifies nothing
+
+// Implicit eviction priority 0 when the annotation is missing; 0 together with an error when it is invalid.
+//@ func GetPodEvictionPriority [C11]
+//@   ensures #unset: pod == nil || pod.ObjectMeta.Annotations == nil || !has(pod.ObjectMeta.Annotations, AnnotationPodEvictionPriority) ==> result0 == 0 && result1 == nil
+//@   ensures #invalid: result1 != nil ==> result0 == 0
+//@   modifies nothing
